@@ -158,6 +158,21 @@ class InlineTrans(Transformation):
             new_stmts.append(child.copy())
             refs.extend(new_stmts[-1].walk(Reference))
 
+        # A local of the routine that has the name of a symbol visible at the
+        # call site from an enclosing scope would capture the references to
+        # that symbol (merge only renames clashes with 'table' itself).
+        skip = self._symbols_to_skip(routine_table)
+        if routine.return_symbol:
+            # The function result is renamed after the merge (see below).
+            skip.append(routine.return_symbol)
+        visible = table.get_symbols()
+        for sym in routine_table.symbols:
+            if (sym not in skip and (sym.is_automatic or sym.is_static) and
+                    sym.name not in table and sym.name.lower() in visible):
+                routine_table.rename_symbol(
+                    sym, table.next_available_name(
+                        sym.name, other_table=routine_table))
+
         # Shallow copy the symbols from the routine into the table at the
         # call site.
         table.merge(routine_table,
